@@ -23,7 +23,7 @@ ASSUMPTIONS = [
 ]
 OPS = ops.RED + ["var", "std", "median", "quantile"] + ops.CUM + ops.ROLL + ops.SHIFT + ["ema", "ema"] + ops.SEL + ["groups", "groups"]
 ops.KIND.setdefault("groups", "groups")
-N_CASES = {"quick": 450, "thorough": 18000}
+N_CASES = {"quick": 450, "thorough": 4000}
 VC = ["np", "np_view", "pd", "pd", "pl", "pa", "pa_chunked", "pd_arrow", "np"]
 KC = ["np", "np_view", "pd", "pl", "pa", "pa_chunked", "pd_arrow", "np", "pd_index"]
 
